@@ -256,7 +256,7 @@ package proxy
 //@   ensures old(specHdInv(clientHd)) ==> specHdInv(clientHd)
 //@   ensures !iserr(err, ErrRangeNotSatisfiable) && !iserr(err, ErrIfRangeMismatch)
 //@   ensures [C09] err == nil ==> specFetchShape(fetched)
-//@   ensures [C09] err != nil ==> upfails > old(upfails) || sferrs > old(sferrs)
+//@   ensures [C09,C05] err != nil ==> upfails > old(upfails) || sferrs > old(sferrs)
 //@   ensures [C05] err == nil && fetched.Type == 1 ==> !old(allocated(fetched.Direct.Response))
 //@   ensures [C05,C01] err == nil && fetched.Type == 0 && fetched.Cached.Coalesced ==> !old(allocated(fetched.Cached.Entry))
 //@   ensures upfails >= old(upfails) && upcalls >= old(upcalls)
@@ -378,6 +378,8 @@ package proxy
 // writing to the client failed.
 //@ props C09 C16 C15 C02 C01 C08 C07
 //@ func Proxy.processRequest
+// A relayed answer that is not a 2xx (a redirect, a challenge, an error) carries the origin's header fields too.
+//@   ghost callsite-requires [C08] finalizeAndRespond fetched.Type == 1 && !(fetched.Direct.fetchInfo.UpstreamStatus >= 200 && fetched.Direct.fetchInfo.UpstreamStatus < 300) ==> (forall k key :: in(fetched.Direct.Response.Header, k) ==> in(resphdr(r), k) && len(resphdr(r)[k]) == len(fetched.Direct.Response.Header[k]))
 //@   ghost callsite-requires [C02] dedupFetch keyid(arg_key) == keyid(key)
 //@   ghost callsite-requires [C02] handleRangeRequest keyid(arg_key) == keyid(key)
 //@   nopanic
